@@ -10,7 +10,7 @@ COQ_DEPS = []
 PROFILES = ["debug"]          # the crate's own dev profile: opt-level 2 with debug assertions and overflow checks on
 CORR_IMPORT = "From Coq Require Import Uint63.\nFrom RlibV Require Import C04.Model C04.Corr.\nOpen Scope Z_scope."
 AUDIT_IMPORT = ("From Coq Require Import ZArith List.\nImport ListNotations.\n"
-                "From RlibV Require Import C04.Model C04.Corr C04.ProofsState C04.Properties.\n")
+                "From RlibV Require Import C04.Model C04.Corr C04.ProofsState C04.AlgRing C04.ProofsTable C04.ProofsLevels C04.Properties.\n")
 EXPLAIN = "explain"
 AXIOM_ALLOW = []
 SHARD = 110
@@ -42,6 +42,25 @@ THEOREMS = [
      "(forall a b res, reach ops tw (fst (multiply_into ops tw s a b res))) /\\ "
      "(forall v n dest, (n = 0%nat \\/ exists m, n = (2 ^ m)%nat) -> reach ops tw (fst (fft_into ops tw s v n dest))) /\\ "
      "(forall (v : list (F * F)) m dest, length v = (2 ^ m)%nat -> reach ops tw (fst (fft_inv_into ops tw s v dest)))"),
+    ("c04_exact_algebra",
+     "forall (F : Type) (ops : Ops F) (inr : Z -> Prop) (tw : nat -> nat -> F * F) (Kmax : nat), "
+     "Lawful ops inr -> (forall k, (2 <= k <= Kmax)%nat -> table_ok ops tw k) -> "
+     "forall s : st (F := F), reach ops tw s -> (length (R s) <= 2 ^ Kmax)%nat -> "
+     "(forall m (v : list (F * F)) k, (m <= Kmax)%nat -> length v = (2 ^ m)%nat -> (k < 2 ^ m)%nat -> "
+     "nth k (snd (fft_internal ops tw s v false)) (czero ops) = "
+     "dft ops (2 ^ m) (root ops tw (Nat.max (Nat.log2 (length (R s))) m) m false) (vec ops v) k /\\ "
+     "nth k (snd (fft_internal ops tw s v true)) (czero ops) = "
+     "cscale ops (dft ops (2 ^ m) (root ops tw (Nat.max (Nat.log2 (length (R s))) m) m true) (vec ops v) k) "
+     "(fdiv ops (fone ops) (of_Z ops (Z.of_nat (2 ^ m))))) /\\ "
+     "(forall (s' : st (F := F)) m (v : list (F * F)), reach ops tw s' -> (length (R s') <= 2 ^ Kmax)%nat -> (m <= Kmax)%nat -> "
+     "length v = (2 ^ m)%nat -> snd (fft_internal ops tw s' (snd (fft_internal ops tw s v false)) true) = v) /\\ "
+     "(forall a b, a <> [] -> b <> [] -> (next_pow2 2 (length a + length b - 1) <= 2 ^ Kmax)%nat -> "
+     "(forall l, (l < length a + length b - 1)%nat -> inr (conv_coef a b l)) -> "
+     "snd (multiply ops tw s a b) = conv a b) /\\ "
+     "(forall a b j res, a <> [] -> b <> [] -> (S j <= Kmax)%nat -> (length a + length b - 1 <= 2 ^ S j)%nat -> "
+     "(forall l, (l < length a + length b - 1)%nat -> inr (conv_coef a b l)) -> inr 0%Z -> "
+     "snd (inv_prod_into ops tw s a b (2 ^ S j) res) = "
+     "zip_acc Z.add res (conv a b ++ repeat 0%Z (2 ^ S j - (length a + length b - 1))))"),
 ]
 RULE = ("histories of 1-7 calls on FFT<f64> objects: multiply / multiply_into (non-zero destinations, shorter and longer "
         "than the product) / fft / fft_into / fft+product+fft_inv_into, length pairs from {0,1,2,3,4,5,7,8,9,15,16,17,31,32,33,40} "
@@ -125,6 +144,10 @@ def coq_term(c, obs, profile):
         if f == "P":
             ops.append("OPanic")
             continue
+        plain = []
+        if k == "TI":
+            f, f2 = f.split(";")
+            plain = [int(x) for x in f2.split()]
         r = [int(x) for x in f.split()] if f != "-" else []
         if k == "F":
             ops.append("OFresh")
@@ -137,7 +160,7 @@ def coq_term(c, obs, profile):
         elif k == "T":
             ops.append("(OFft %s %d %s)" % (zl(o[1]), o[2], zpl(r)))
         elif k == "TI":
-            ops.append("(OFftInto %s %d %s %s)" % (zl(o[1]), o[2], zpl(o[3]), zpl(r)))
+            ops.append("(OFftInto %s %d %s %s %s)" % (zl(o[1]), o[2], zpl(o[3]), zpl(r), zpl(plain)))
         elif k == "V":
             ops.append("(OInv %s %s %d %s %s)" % (zl(o[1]), zl(o[2]), o[3], zl(o[4]), zl(r)))
     return "(mkcase %s [%s])" % (zpl(table), ";".join(ops))
@@ -420,18 +443,27 @@ def extra(ctx, known):
 
 
 MANIFEST = {
-    "text": "Executable Gallina model of rlib_fft::FFT (update_n, fft_internal, fft/fft_into, fft_inv/fft_inv_into, "
-            "multiply/multiply_into), polymorphic in the scalar operations and in the twiddle oracle. On every run the binary64 "
-            "instance (Coq primitive floats, fed the implementation's own twiddle table through the verif hook) is compared with "
-            "the Rust crate bit for bit on fft outputs and exactly on all integer outputs over call histories (reuse of one object "
-            "after growth, *_into on non-zero destinations, lengths around powers of two, boundary coefficients of both signs), and "
-            "the integer outputs are compared in Coq with a direct integer convolution. The floating-point rounding-error bound "
-            "inside the envelope (c04_rounding_partial) is NOT proved: it is examined by search only (implementation against an exact "
-            "i128 schoolbook convolution at the boundary max^2*max(len) <= 1e12, f32: <= 1e3). Known finding unequal-lengths: the "
-            "literal envelope max^2*min(len) <= 1e12 is violated for very unequal lengths; re-confirmed on every run.",
-    "level_note": "Trusted: Coq kernel + vm_compute (primitive floats only in executed cases, never in a theorem); the Rust executor "
-                  "and the Python case printer; libm sin/cos enter through the implementation's own table. Theorems are about the "
-                  "model; the correspondence is sampled. Rounding inside the envelope: search only, not proof.",
+    "text": "Coq theorems (no axioms) about an executable Gallina model of rlib_fft::FFT (update_n, fft_internal, fft/fft_into, "
+            "fft_inv/fft_inv_into, multiply/multiply_into), polymorphic in the scalar operations and in the twiddle oracle: "
+            "c04_shape (empty operand => empty product, length |a|+|b|-1, multiply_into / fft_into / fft_inv_into ADD to the destination "
+            "exactly what multiply / fft / fft_inv return) and c04_history_independent + c04_reach_closed (for ANY scalar type and oracle, "
+            "hence for binary64 bit for bit: any two reachable object states give the same product and the same transform; fft_inv_into "
+            "needs both objects at least as large as its input because it reads max_n without growing the object) hold for the float "
+            "instance itself; c04_exact_algebra (over a commutative scalar ring with 2 invertible, exact division by 2^k and a table with "
+            "w[0]=1, w[a]w[b]=w[(a+b) mod N], w[N/2]=-1, w[N/4]=i, conj w[a]=w[N-a]: fft_internal computes the DFT, inverse after "
+            "forward is the identity, multiply = integer convolution, fft+pointwise product+fft_inv_into = convolution); the hypotheses "
+            "are inhabited by an executable instance over Z/998244353 with circle-group twiddles (Examples.v, executed against the direct "
+            "convolution). On every run the binary64 instance (Coq primitive floats, fed the implementation's own twiddle table through the "
+            "verif hook) is compared with the Rust crate bit for bit on fft outputs and exactly on all integer outputs over call histories "
+            "(reuse after growth, *_into on non-zero destinations, lengths around powers of two, boundary coefficients of both signs), and "
+            "the integer outputs are compared in Coq with a direct integer convolution. c04_rounding_partial: the floating-point "
+            "rounding-error bound inside the envelope is NOT proved; it is examined by search only (implementation against an exact i128 "
+            "schoolbook convolution at the boundary max^2*max(len) <= 1e12, f32: <= 1e3). Known finding unequal-lengths: the literal "
+            "envelope max^2*min(len) <= 1e12 is violated for very unequal lengths; re-confirmed on every run.",
+    "level_note": "proof, partial: shape, history independence (bit-exact, all instances) and algebraic exactness are proved for the "
+                  "model; the rounding envelope is search only. Trusted: Coq kernel + vm_compute (primitive floats only in executed "
+                  "cases, never in a theorem); the Rust executor and the Python case printer; libm sin/cos enter through the "
+                  "implementation's own table; the correspondence model = code is sampled.",
     "technique": "Coq proof over polymorphic Gallina model (3 instances) + vm_compute bit-exact correspondence batches + "
                  "implementation-level envelope search",
 }
